@@ -36,7 +36,7 @@ GInit == /\ kinds \in KindPool
          /\ htlc = [c \in C |-> NoHtlc]
          /\ sub = {} /\ timer = {}
          /\ setOwner = [s \in Sets |-> 0]
-         /\ height = 0 /\ now = 0
+         /\ height = 0 /\ now = 0 /\ pend = {}
          /\ last = [a |-> "init", c |-> 0, k |-> 0, res |-> "none", why |-> "", alt |-> "", hodl |-> NoMsgs]
          /\ hist = <<>>
 \* weights: simulation picks uniformly among the successors that exist, a coin makes an event rarer
